@@ -227,6 +227,15 @@ def families(tier, seed):
     return fams
 
 
+def _twin_ordered_segment_hash():
+    def h(self):
+        return shims.hash_shim(("Segment", shims.hash_shim(self.start_point), shims.hash_shim(self.end_point)))
+    Segment.__hash__ = h
+
+
+TWINS = {'Segment hash depends on the endpoint order': (r'^segment-halfline-point-vector/axis/same-set$', _twin_ordered_segment_hash)}
+
+
 META = dict(
     title='equality is representation-independent and consistent with hash',
     level_text=('Bounded symbolic model checking of the real __eq__/__hash__ code: representation families with 3-5 real parameters (a Line from any two of '
